@@ -145,6 +145,12 @@ func searchIndex(p *binary.BinaryProtocol, idx int, elementWireType proto.WireTy
 		result = p.Read
 	} else {
 		// normal Type : [tag][(length)][value][tag][(length)][value][tag][(length)][value]....
+		// p.Read points to the tag of element 0
+		if idx > 0 {
+			if _, _, _, err := p.ConsumeTag(); err != nil {
+				return 0, err
+			}
+		}
 		for p.Read < len(p.Buf) && cnt < idx {
 			// don't move p.Read and judge whether readList completely
 			if err := p.Skip(elementWireType, false); err != nil {
@@ -333,7 +339,8 @@ func (self Value) getByPath(pathes ...Path) (Value, []int) {
 	}
 
 	if !isRoot {
-		if self.t == proto.LIST || self.t == proto.MAP {
+		// an unpacked list has no tag of its own: its first tag belongs to element 0 and is left to searchIndex
+		if (self.t == proto.LIST && desc.IsPacked()) || self.t == proto.MAP {
 			p.ConsumeTag()
 		}
 	}
@@ -440,7 +447,8 @@ func (self Value) getByPath(pathes ...Path) (Value, []int) {
 			return errValue(errBehavior(err), "invalid value node.", err), address
 		}
 		// if not the last one, it must be a complex node, so need to skip tag
-		if i != len(pathes)-1 {
+		// (except for an unpacked list: its first tag belongs to element 0 and is left to searchIndex)
+		if i != len(pathes)-1 && !(tt == proto.LIST && !desc.IsPacked()) {
 			if _, _, _, err := p.ConsumeTag(); err != nil {
 				return errValue(meta.ErrRead, "invalid field tag failed.", err), address
 			}
